@@ -417,7 +417,9 @@ def run_native(cases, timeout=900):
             json.dump(cases, fh)
         env = dict(os.environ)
         env["PYTHONPATH"] = os.environ.get("PYVC_SRC", "/repo/src") + os.pathsep + VERIF
-        env.setdefault("TZ", "UTC")
+        # natives run in a zone with a non-hour offset and DST so that UTC/local confusions show; zone-sensitive
+        # cases set their own zone
+        env["TZ"] = os.environ.get("PYVC_NATIVE_TZ", "Australia/Lord_Howe")
         r = subprocess.run([NATIVE_PY, "-m", "native.runner", path], capture_output=True, text=True, cwd=VERIF,
                            env=env, timeout=timeout)
         if r.returncode != 0:
